@@ -447,7 +447,11 @@ def e_big_enum_value(d, r, lit):
     if not ints:
         return e_add_enum(d, r, lit)
     e = r.choice(ints)
-    e["values"].append({"name": _fresh(r, "Big"), "value": r.choice([2**31 - 1, 2**40, 0, 1]) if e["type"]["name"] != "integer" else r.choice([-(2**31), 2**53, -1, 0])})
+    pool = [2**31 - 1, 2**40, 0, 1, 2**53 + 1, 2**63, 2**64 + 1, 10**30 + 1, 9007199254740993, 123456789012345678901234567890]
+    v = r.choice(pool)
+    if e["type"]["name"] == "integer" and r.random() < 0.5:
+        v = -v
+    e["values"].append({"name": _fresh(r, "Big"), "value": v})
     return "enum:big_value"
 
 
@@ -618,7 +622,8 @@ def apply_violation(doc: Dict[str, Any], ref: Ref, cls: Tuple[str, str, str], r:
     if kw == "required":
         del x[key]
     elif kw == "additionalProperties":
-        x[key] = r.choice([True, "x", 1, None])
+        # the undeclared key's spelling matters to code that special-cases some names
+        x[r.choice([key, key, "$schema", "$id", "$comment", "$ref", "comment", "_comment", "version", "id_", "id", "kind", "__class__", "description", "title", ""])] = r.choice([True, "x", 1, None, "./lsp.schema.json", {}])
     elif kw == "type":
         if r.random() < 0.35:
             x[key] = None  # null is a wrong JSON type for every declared property
